@@ -57,7 +57,7 @@ var alphabet = func() []step {
 	for _, p := range []string{"udp", "tcp", "broadcast"} {
 		a = append(a, step{p, "no-reply-expected", "SetAddress"})
 	}
-	a = append(a, step{"broadcast", "replies-in-window", "GetDevices"}, step{"broadcast", "silence", "GetDevices"})
+	a = append(a, step{"broadcast", "replies-in-window", "GetDevices"}, step{"broadcast", "silence", "GetDevices"}, step{"broadcast", "reply-at-deadline", "GetDevices"})
 	return a
 }()
 
@@ -104,6 +104,9 @@ func newWorld() *world {
 			}
 			s := binary.LittleEndian.Uint32(req[4:8])
 			if s == 0 && req[1] == 0x94 { // discovery
+				if w.cur.behaviour == "reply-at-deadline" {
+					return []farm.Reply{{Delay: T, Data: echo.EchoReply(serials[p], req)}, {Delay: T, Data: echo.EchoReply(serials[p]+1, req)}}
+				}
 				if w.cur.behaviour == "replies-in-window" {
 					return []farm.Reply{{Delay: T / 5, Data: echo.EchoReply(serials[p], req)}, {Delay: T + eps, Data: echo.EchoReply(serials[p]+1, req)}}
 				}
@@ -197,6 +200,10 @@ type record struct {
 }
 
 func historyScenario(first int, maxLen int, bind uint16) e1.Scenario {
+	return historyScenarioB(first, maxLen, bind, 0)
+}
+
+func historyScenarioB(first int, maxLen int, bind uint16, bound int) e1.Scenario {
 	var recs []record
 	body := func() {
 		recs = nil
@@ -253,7 +260,7 @@ func historyScenario(first int, maxLen int, bind uint16) e1.Scenario {
 		}
 		return label, viols
 	}
-	return e1.Scenario{Name: fmt.Sprintf("history/bind=%d/first=%s:%s:%s/len<=%d", bind, alphabet[first].op, alphabet[first].path, alphabet[first].behaviour, maxLen), Bound: 0, Body: body, Check: check, Opt: vs.Options{Horizon: 4000}}
+	return e1.Scenario{Name: fmt.Sprintf("history/bind=%d/first=%s:%s:%s/len<=%d", bind, alphabet[first].op, alphabet[first].path, alphabet[first].behaviour, maxLen) + fmt.Sprintf("/bound=%d", bound), Bound: bound, Body: body, Check: check, Opt: vs.Options{Horizon: 4000}}
 }
 
 func steps(recs []record) []string {
@@ -355,6 +362,12 @@ func main() {
 			scenarios = append(scenarios, historyScenario(first, 3, 60001))
 		} else {
 			scenarios = append(scenarios, historyScenario(first, 2, 60001))
+		}
+	}
+	// discovery under all interleavings of the reader goroutine and the caller (preemption bound 2)
+	for first, s := range alphabet {
+		if s.op == "GetDevices" {
+			scenarios = append(scenarios, historyScenarioB(first, 2, 0, 2))
 		}
 	}
 	paths := []string{"udp", "tcp", "broadcast"}
